@@ -205,6 +205,31 @@ func c07BuildPool(verifSeed int64) []*sbom.Document {
 			d.NodeList.Edges = append(d.NodeList.Edges, &sbom.Edge{Type: sbom.Edge_contains, From: id(2), To: []string{id(1)}},
 				&sbom.Edge{Type: sbom.Edge_dependsOn, From: id(1), To: []string{id(2), id(1)}})
 		}
+		// edges are stored in no particular order (child-first orders included)
+		r.Shuffle(len(d.NodeList.Edges), func(a, b int) { d.NodeList.Edges[a], d.NodeList.Edges[b] = d.NodeList.Edges[b], d.NodeList.Edges[a] })
+		pool = append(pool, d)
+	}
+	for i := 0; i < 6; i++ { // deep containment chains whose edges are listed child-first, identifiers not in depth order
+		d := base(fmt.Sprintf("k%d", i))
+		g := gen.New(r.Int63(), gen.Profile{Serialisable: true, Tag: fmt.Sprintf("k%d", i)})
+		names := []string{"SPDXRef-root", "SPDXRef-zeta", "SPDXRef-alpha", "SPDXRef-mid", "SPDXRef-beta", "SPDXRef-omega"}
+		n := 4 + r.Intn(3)
+		r.Shuffle(len(names)-1, func(a, b int) { names[a+1], names[b+1] = names[b+1], names[a+1] })
+		d.NodeList = &sbom.NodeList{RootElements: []string{names[0]}}
+		for j := 0; j < n; j++ {
+			d.NodeList.Nodes = append(d.NodeList.Nodes, g.Node(names[j]))
+		}
+		typ := sbom.Edge_contains
+		if i%3 == 2 {
+			typ = sbom.Edge_dependsOn
+		}
+		for j := n - 1; j >= 1; j-- { // deepest edge first
+			t := typ
+			if j == 1 {
+				t = sbom.Edge_contains
+			}
+			d.NodeList.Edges = append(d.NodeList.Edges, &sbom.Edge{Type: t, From: names[j-1], To: []string{names[j]}})
+		}
 		pool = append(pool, d)
 	}
 	for i := 0; i < 8; i++ { // schema-driven hostile documents, forced to one existing root so that serializers get past their guards
@@ -240,15 +265,15 @@ func genC07(verifSeed int64, tier string, idx int) *core.Scenario {
 		// bias: hostile documents and a few hot documents recur inside one history
 		var pi int
 		switch k := r.Intn(10); {
-		case k < 5:
-			pi = 24 + r.Intn(len(pool)-24)
-		case k < 7 && len(used) > 0:
+		case k < 5 && len(used) > 0: // the same document again (other format, other position)
 			keys := make([]int, 0, len(used))
 			for k := range used {
 				keys = append(keys, k)
 			}
 			sort.Ints(keys)
 			pi = keys[r.Intn(len(keys))]
+		case k < 8:
+			pi = 24 + r.Intn(len(pool)-24)
 		default:
 			pi = r.Intn(len(pool))
 		}
@@ -262,6 +287,9 @@ func genC07(verifSeed int64, tier string, idx int) *core.Scenario {
 	for i := 0; i < total; i++ {
 		pi := pick()
 		op := Op{K: "Write", D: used[pi], A: fmt.Sprintf("p%d", pi), F: c07Formats[r.Intn(len(c07Formats))], I: []int{0, 2, 4, 7}[r.Intn(4)]}
+		if r.Intn(4) == 0 {
+			op.F = c07Formats[0] // SPDX more often: the two families alternate on one document
+		}
 		if r.Intn(2) == 0 {
 			// clock jumps, forwards and backwards
 			op.J = (r.Int63n(4000) - 2000) * 1000000000
